@@ -139,6 +139,72 @@ theorem osu_perf_last (sk : Skills S) (objs : List OsuObj) (perf : OsuCounts × 
   rw [e] at h
   exact h.1
 
+/-! The same statement for catch (units = palpable objects) and mania. -/
+
+theorem catch_perf_nth (sk : Skills S) (recs : List CatchRec) (perf : CatchCounts × S → Nat → X → R)
+    (g : CatchGrad S) (i : Nat) (x : X) (n : Nat) (hc : CatchCanon sk recs g i) :
+    (i < recs.length →
+      let j := i + min (n + 1) (recs.length - i)
+      (perfNth (catchMachine sk recs (recs.length - 1)) (·.idx) perf g x n).1 = .some (perf (catchValue sk recs j) j x) ∧
+      CatchCanon sk recs (perfNth (catchMachine sk recs (recs.length - 1)) (·.idx) perf g x n).2 j) ∧
+    (i = recs.length → (perfNth (catchMachine sk recs (recs.length - 1)) (·.idx) perf g x n).1 = .none) := by
+  have h := catchNth_spec sk recs g i n hc
+  constructor
+  · intro hlt j
+    obtain ⟨hv, hcn⟩ := h.1 hlt
+    have e : i + min n (recs.length - i - 1) + 1 = j := by omega
+    rw [e] at hv hcn
+    unfold perfNth
+    have hm : (catchMachine sk recs (recs.length - 1)).nth g n = catchNth sk recs (recs.length - 1) g n := rfl
+    rw [hm]
+    generalize hr : catchNth sk recs (recs.length - 1) g n = r at hv hcn
+    obtain ⟨rv, rg⟩ := r
+    simp only at hv hcn
+    subst hv
+    exact ⟨by simp [hcn.idx], hcn⟩
+  · intro heq
+    have hv := (h.2 heq).1
+    unfold perfNth
+    have hm : (catchMachine sk recs (recs.length - 1)).nth g n = catchNth sk recs (recs.length - 1) g n := rfl
+    rw [hm]
+    generalize hr : catchNth sk recs (recs.length - 1) g n = r at hv
+    obtain ⟨rv, rg⟩ := r
+    simp only at hv
+    subst hv
+    rfl
+
+theorem mania_perf_nth (sk : Skills S) (objs : List ManiaObj) (perf : ManiaCounts × S → Nat → X → R)
+    (g : ManiaGrad S) (i : Nat) (x : X) (n : Nat) (hc : ManiaCanon sk objs g i) :
+    (i < objs.length →
+      let j := i + min (n + 1) (objs.length - i)
+      (perfNth (maniaMachine sk objs) (·.idx) perf g x n).1 = .some (perf (maniaValue sk objs j) j x) ∧
+      ManiaCanon sk objs (perfNth (maniaMachine sk objs) (·.idx) perf g x n).2 j) ∧
+    (i = objs.length → (perfNth (maniaMachine sk objs) (·.idx) perf g x n).1 = .none) := by
+  have h := maniaNth_spec sk objs g i n hc
+  constructor
+  · intro hlt j
+    obtain ⟨hv, hcn⟩ := h.1 hlt
+    have e : i + min n (objs.length - i - 1) + 1 = j := by omega
+    rw [e] at hv hcn
+    unfold perfNth
+    have hm : (maniaMachine sk objs).nth g n = maniaNth sk objs g n := rfl
+    rw [hm]
+    generalize hr : maniaNth sk objs g n = r at hv hcn
+    obtain ⟨rv, rg⟩ := r
+    simp only at hv hcn
+    subst hv
+    exact ⟨by simp [hcn.idx], hcn⟩
+  · intro heq
+    have hv := (h.2 heq).1
+    unfold perfNth
+    have hm : (maniaMachine sk objs).nth g n = maniaNth sk objs g n := rfl
+    rw [hm]
+    generalize hr : maniaNth sk objs g n = r at hv
+    obtain ⟨rv, rg⟩ := r
+    simp only at hv
+    subst hv
+    rfl
+
 /-- Non-vacuity of the builder theorem on concrete values. -/
 example :
     (gradualBuilder "Osu" 1 { Diff.new with lazer := some false } 5 [9, 1, 2, 3, 4, 5, 6, 7] true).difficulty =
